@@ -32,8 +32,11 @@ CONSTANTS ClassOf(_),     \* name -> dataclass term
           ValueOf(_),     \* class name -> instance to serialise
           InputOf(_),     \* class name -> input to deserialise
           MaxLen,
-          CacheMode,      \* "own" (documented: every class owns its caches) | "inherited" (deviant: found through the parent)
-          Codecs          \* TRUE: CreateCodec / CodecCall actions enabled (C15)
+          CacheMode,      \* "own" (documented: every class owns its caches, one per direction AND format) |
+                          \* "inherited" (deviant: found through the parent) | "noformat" (deviant: not keyed by format)
+          Codecs,         \* TRUE: CreateCodec / CodecCall actions enabled (C15)
+          FmtsOf(_),      \* class name -> set of formats its mixin offers ("dict" always; "msgpack" / "orjson" for format mixins)
+          KwNames         \* keyword arguments usable in calls: subset of {"none", "omit_none", "by_alias", "newline"}
 
 VARIABLES defined, methods, dcache, codecs, hist, last
 
@@ -41,11 +44,19 @@ Dirs == {"to", "from"}
 IsLazy(n) == GetOpt(DcCfg(ClassOf(n)), "lazy", FALSE)
 HasDialects(n) == "dialect_flag" \in Flags(ClassOf(n))
 
-CxFor(d) == [DefaultCx EXCEPT !.dlct = DialectOf(d)]
-\* what artifact <<n, dir, d>> computes
-ArtifactResult(a, x) == IF a[2] = "to" THEN Pack(ClassOf(a[1]), CxFor(a[3]), x) ELSE Unpack(ClassOf(a[1]), CxFor(a[3]), x)
-\* what ANY completed call must return: a function of class, direction, dialect and argument only
-Outcome(n, dir, d) == ArtifactResult(<<n, dir, d>>, IF dir = "to" THEN ValueOf(n) ELSE InputOf(n))
+\* the format dialect of a format mixin and what its parser hands back untouched
+FmtDialect(f) == IF f = "msgpack" THEN << <<"no_copy", {"list", "dict"}>> >>
+                 ELSE IF f = "orjson" THEN << <<"no_copy", {"list", "dict"}>> >> ELSE <<>>
+NativeOf(f) == IF f = "msgpack" THEN {"bytes", "bytearray"} ELSE {}
+CxFor(f, d, kw) == [DefaultCx EXCEPT !.dlct = DialectOf(d), !.native = NativeOf(f), !.fmtd = FmtDialect(f),
+                                      !.omit_none = IF kw = "omit_none" THEN "yes" ELSE "unset",
+                                      !.by_alias = IF kw = "by_alias" THEN "yes" ELSE "unset"]
+\* the argument of a call: the instance, or the input document of the format (as its parser would hand it over)
+ArgOf(n, dir, f) == IF dir = "to" THEN ValueOf(n) ELSE IF f = "dict" THEN InputOf(n) ELSE Pack(ClassOf(n), CxFor(f, "none", "none"), ValueOf(n))
+\* what artifact <<n, dir, fmt, d>> computes for keyword kw
+ArtifactResult(a, kw, x) == IF a[2] = "to" THEN Pack(ClassOf(a[1]), CxFor(a[3], a[4], kw), x) ELSE Unpack(ClassOf(a[1]), CxFor(a[3], a[4], kw), x)
+\* what ANY completed call must return: a function of class, direction, format, dialect, keyword and argument only
+Outcome(n, dir, f, d, kw) == ArtifactResult(<<n, dir, f, d>>, kw, ArgOf(n, dir, f))
 
 \* "an otherwise identical class whose default dialect is D" (C13): D layered over the class's own default dialect
 Layer(dn, own) == DialectOf(dn) \o own
@@ -93,20 +104,24 @@ Define(n) ==
 CacheOwner(n) == IF CacheMode = "own" \/ ParentOf(n) = "#none" \/ ~IsDef(ParentOf(n)) THEN n ELSE ParentOf(n)
 
 \* Call = CallEnter . (StubCompile . Install)? . (CacheHit | CacheMiss . DialectCompile)? . Return
-Call(n, dir, d) ==
+\* dcache[c][dir] holds pairs <<format the entry was compiled for, dialect>>
+Call(n, dir, f, d, kw) ==
   /\ IsDef(n)
+  /\ f \in FmtsOf(n)
   /\ d # "none" => HasDialects(n)
+  /\ kw \in KwNames /\ (kw # "none" => dir = "to") /\ (kw = "newline" => f = "orjson")
   /\ LET owner == CacheOwner(n)
+         hits == { e \in dcache[owner][dir] : e[2] = d /\ (CacheMode = "noformat" \/ e[1] = f) }
          \* the artifact the mechanism ends up invoking
-         art == IF d = "none" THEN <<n, dir, "none">>
-                ELSE IF d \in dcache[owner][dir]
-                     THEN <<owner, dir, d>>            \* cache hit: whatever was compiled into that dictionary
-                     ELSE <<n, dir, d>>                \* miss: compile for the receiver and insert
-         x == IF dir = "to" THEN ValueOf(n) ELSE InputOf(n)
+         art == IF d = "none" THEN <<n, dir, f, "none">>
+                ELSE IF hits # {}
+                     THEN LET e == CHOOSE e \in hits : TRUE IN <<owner, dir, e[1], d>>     \* cache hit: whatever was compiled into that dictionary
+                     ELSE <<n, dir, f, d>>                                              \* miss: compile for the receiver and insert
+         x == ArgOf(n, dir, f)
      IN /\ methods' = [methods EXCEPT ![n][dir] = "real"]                          \* a stub compiles itself on its first call
-        /\ dcache' = IF d = "none" THEN dcache ELSE [dcache EXCEPT ![owner][dir] = @ \cup {d}]
-        /\ last' = <<"call", art, ArtifactResult(art, x), Outcome(n, dir, d)>>
-        /\ hist' = Append(hist, <<"Call", n, dir, d>>)
+        /\ dcache' = IF d = "none" \/ hits # {} THEN dcache ELSE [dcache EXCEPT ![owner][dir] = @ \cup {<<f, d>>}]
+        /\ last' = <<"call", art, ArtifactResult(art, kw, x), Outcome(n, dir, f, d, kw)>>
+        /\ hist' = Append(hist, <<"Call", n, dir, d, f, kw>>)
   /\ UNCHANGED <<defined, codecs>>
 
 \* a codec for class n with default_dialect d: d sits at the format-dialect level (lowest)
@@ -129,7 +144,7 @@ CodecCall(n, dir, d) ==
 
 Next == /\ Len(hist) < MaxLen
         /\ \/ \E n \in Names : Define(n)
-           \/ \E n \in Names, dir \in Dirs, d \in DNames : Call(n, dir, d)
+           \/ \E n \in Names, dir \in Dirs, d \in DNames, f \in {"dict", "msgpack", "orjson"}, kw \in KwNames : Call(n, dir, f, d, kw)
            \/ \E n \in Names, dir \in Dirs, d \in DNames : CreateCodec(n, dir, d)
            \/ \E n \in Names, dir \in Dirs, d \in DNames : CodecCall(n, dir, d)
 
@@ -137,13 +152,13 @@ Next == /\ Len(hist) < MaxLen
 \* every completed call returns what a fresh eager family would return (C13 C14)
 Faithful == last[1] = "call" => last[3] = last[4]
 \* a dialect cache only ever holds artifacts compiled for its own class (implementation level, C13)
-CacheOwn == last[1] = "call" => last[2][1] \in Names /\ (CacheMode = "own" => last[2][1] = hist[Len(hist)][2])
+CacheOwn == last[1] = "call" => last[2][1] \in Names /\ (CacheMode = "own" => (last[2][1] = hist[Len(hist)][2] /\ last[2][3] = hist[Len(hist)][5]))
 \* calling with dialect=D equals the twin whose default dialect is D (C13, on the reference semantics)
 IsolationEq ==
   hist = <<>> =>
     \A n \in Names, dir \in Dirs, d \in DNames : (d = "none" \/ HasDialects(n)) =>
        LET x == IF dir = "to" THEN ValueOf(n) ELSE InputOf(n) T2 == Twin(n, d) IN
-       Outcome(n, dir, d) = (IF dir = "to" THEN Pack(T2, DefaultCx, x) ELSE Unpack(T2, DefaultCx, x))
+       Outcome(n, dir, "dict", d, "none") = (IF dir = "to" THEN Pack(T2, DefaultCx, x) ELSE Unpack(T2, DefaultCx, x))
 \* creating codecs never changes what a class does (C15): the class-level state is untouched
 CodecPure == [][ (\E n \in Names, dir \in Dirs, d \in DNames : CreateCodec(n, dir, d)) => UNCHANGED <<methods, dcache, defined>> ]_<<defined, methods, dcache, codecs, hist, last>>
 \* mixin and codec agree when the codec's default dialect plays the role of the call dialect's lowest level (C15)
@@ -154,7 +169,9 @@ EmitTables ==
     /\ \A n \in Names : PrintT(ToJson(<<"class", n, ClassOf(n), ValueOf(n), InputOf(n)>>))
     /\ \A d \in DNames : PrintT(ToJson(<<"dialect", d, DialectOf(d)>>))
     /\ \A n \in Names, dir \in Dirs, d \in DNames :
-         /\ (d = "none" \/ HasDialects(n)) => PrintT(ToJson(<<"call", n, dir, d, Outcome(n, dir, d), Twin(n, d)>>))
+         /\ \A f \in FmtsOf(n), kw \in KwNames :
+              ((d = "none" \/ HasDialects(n)) /\ (kw # "none" => dir = "to") /\ (kw = "newline" => f = "orjson")) =>
+                 PrintT(ToJson(<<"call", n, dir, d, Outcome(n, dir, f, d, kw), IF f = "dict" /\ kw = "none" THEN Twin(n, d) ELSE <<>>, f, kw, ArgOf(n, dir, f)>>))
          /\ PrintT(ToJson(<<"codeccall", n, dir, d, CodecOutcome(n, dir, d)>>))
 EmitInv == (Len(hist) = MaxLen) => PrintT(ToJson(<<"beh", hist>>))
 =============================================================================
